@@ -199,6 +199,41 @@ func TestC15FindLookups(t *testing.T) {
 		if len(distinctAnswers) >= 2 {
 			labels = append(labels, "ambiguous")
 		}
+		// the same table as a file: the selection computed on the table read
+		// from its encoding must not depend on how the file spells it.  The
+		// second spelling lets FeatureRecords / language systems of equal
+		// content share one Feature / LangSys table (what font compilers
+		// write, never the library's own writer); only offsets differ.
+		var enc []byte
+		if guard.Try(func() { enc = info.Encode() }) == nil {
+			if sh, n := lookups.ShareTables(enc); n > 0 {
+				var plain, shared *gtab.Info
+				var err1, err2 error
+				pn := guard.Try(func() {
+					plain, err1 = gtab.Read(bytes.NewReader(enc), gtab.TypeGsub)
+					shared, err2 = gtab.Read(bytes.NewReader(sh), gtab.TypeGsub)
+				})
+				if pn != nil {
+					t.Fatalf("gtab.Read panicked: %s\n%s", pn, ctx())
+				}
+				if (err1 == nil) != (err2 == nil) {
+					t.Fatalf("the table is read in one spelling but not in the other (%d shared Feature/LangSys tables): plain err=%v, shared err=%v\n%s", n, err1, err2, ctx())
+				}
+				if err1 == nil {
+					probes := []map[string]bool{include, nil, {}}
+					for _, tag := range featurePool {
+						probes = append(probes, map[string]bool{tag: true})
+					}
+					for _, inc := range probes {
+						a, b := plain.FindLookups(lang, inc), shared.FindLookups(lang, inc)
+						if !eqLookups(a, b) {
+							t.Fatalf("feature selection depends on the spelling of the file: with %d FeatureRecords/language systems sharing their tables FindLookups(%s, %v) = %v, with separate tables %v\n%s", n, lang, inc, b, a, ctx())
+						}
+					}
+					labels = append(labels, "file-with-shared-tables")
+				}
+			}
+		}
 		stats.CaseIn("findlookups", stats.Hash(ctx()), len(keys) >= 2 && len(distinctAnswers) >= 2, func() string { return ctx() + fmt.Sprintf(" -> %v", got) }, labels...)
 	})
 }
